@@ -464,9 +464,15 @@ pub fn worker_main(prop: &'static dyn Property, args: WorkerArgs) -> i32 {
                     } else {
                         // New failure: shrink it in-process, keeping the signature fixed.
                         let sig = f.signature.clone();
+                        // Shrinking an expensive failure (a hang seen through a child process) must
+                        // not take forever: candidates tried after the deadline count as passing.
+                        let shrink_deadline = Instant::now() + std::time::Duration::from_secs(25);
                         let shrunk = shrink(
                             &words,
                             |cand| {
+                                if Instant::now() > shrink_deadline {
+                                    return false;
+                                }
                                 watch.case_cpu_start_ns.store(thread_cpu_ns(clock), Ordering::SeqCst);
                                 watch.case_wall_start_ms.store(now_ms(origin), Ordering::SeqCst);
                                 let c = CaseCtx { tier: args.tier, index, want_rendered: false, seed: args.seed };
@@ -504,7 +510,9 @@ pub fn worker_main(prop: &'static dyn Property, args: WorkerArgs) -> i32 {
                 n_local += 1;
                 index += args.stride;
                 summary.next_index = index;
-                if distinct_signatures >= 4 {
+                // A systematic defect makes (almost) every case fail: no point in going on.
+                let total_failures: u64 = summary.failures.iter().map(|f| f.occurrences).sum();
+                if distinct_signatures >= 4 || total_failures >= 6 {
                     break;
                 }
                 if last_flush.elapsed().as_millis() > 1500 {
@@ -741,46 +749,58 @@ pub fn driver_main(prop: &'static dyn Property, tier: Tier) -> i32 {
         .collect();
     let mut deaths: Vec<(u64, String, String)> = Vec::new(); // (index, signature, stderr)
 
-    loop {
-        let pending: Vec<usize> = states.iter().enumerate().filter(|(_, s)| !s.finished).map(|(i, _)| i).collect();
-        if pending.is_empty() {
-            break;
-        }
-        let mut children = Vec::new();
-        for i in pending {
-            let s = &states[i];
-            let cur = scratch.join(format!("w{}.cur", s.offset));
-            let out = scratch.join(format!("w{}.json", s.offset));
-            let _ = std::fs::remove_file(&out);
-            let _ = std::fs::remove_file(&cur);
-            let skip = s.skip.iter().map(|x| x.to_string()).collect::<Vec<_>>().join(",");
-            let child = Command::new(&exe)
-                .args([
-                    "worker",
-                    id,
-                    tier.name(),
-                    &seed.to_string(),
-                    &s.start.to_string(),
-                    &total.to_string(),
-                    &n_workers.to_string(),
-                    &s.offset.to_string(),
-                    &skip,
-                ])
-                .arg(&cur)
-                .arg(&out)
-                .stdin(Stdio::null())
-                .stdout(Stdio::null())
-                .stderr(Stdio::piped())
-                .spawn()
-                .expect("spawn worker");
-            children.push((i, child, cur, out));
-        }
-        for (i, child, cur, out) in children {
-            let output = child.wait_with_output().expect("worker output");
-            let stderr = String::from_utf8_lossy(&output.stderr).to_string();
+    // Workers run concurrently; a dead worker is restarted at once (behind the case that killed it).
+    let spawn_worker = |s: &WorkerState| -> (std::process::Child, PathBuf, PathBuf, PathBuf) {
+        let cur = scratch.join(format!("w{}.cur", s.offset));
+        let out = scratch.join(format!("w{}.json", s.offset));
+        let err = scratch.join(format!("w{}.err", s.offset));
+        let _ = std::fs::remove_file(&out);
+        let _ = std::fs::remove_file(&cur);
+        let skip = s.skip.iter().map(|x| x.to_string()).collect::<Vec<_>>().join(",");
+        let errf = std::fs::File::create(&err).expect("create stderr file");
+        let child = Command::new(&exe)
+            .args([
+                "worker",
+                id,
+                tier.name(),
+                &seed.to_string(),
+                &s.start.to_string(),
+                &total.to_string(),
+                &n_workers.to_string(),
+                &s.offset.to_string(),
+                &skip,
+            ])
+            .arg(&cur)
+            .arg(&out)
+            .stdin(Stdio::null())
+            .stdout(Stdio::null())
+            .stderr(Stdio::from(errf))
+            .spawn()
+            .expect("spawn worker");
+        (child, cur, out, err)
+    };
+    let mut running: Vec<(usize, std::process::Child, PathBuf, PathBuf, PathBuf)> = Vec::new();
+    for i in 0..states.len() {
+        let (c, cur, out, err) = spawn_worker(&states[i]);
+        running.push((i, c, cur, out, err));
+    }
+    let mut total_deaths = 0u32;
+    while !running.is_empty() {
+        std::thread::sleep(std::time::Duration::from_millis(20));
+        let mut k = 0;
+        while k < running.len() {
+            let status = match running[k].1.try_wait() {
+                Ok(Some(st)) => st,
+                _ => {
+                    k += 1;
+                    continue;
+                }
+            };
+            let (i, _child, cur, out, err) = running.swap_remove(k);
+            let stderr = std::fs::read_to_string(&err).unwrap_or_default();
             let summary: Option<Summary> = std::fs::read(&out).ok().and_then(|b| serde_json::from_slice(&b).ok());
             let st = &mut states[i];
-            let clean = output.status.success() && summary.as_ref().map(|s| s.done).unwrap_or(false);
+            let clean = status.success() && summary.as_ref().map(|s| s.done).unwrap_or(false);
             if clean {
                 st.merged.merge(summary.unwrap());
                 st.finished = true;
@@ -788,15 +808,16 @@ pub fn driver_main(prop: &'static dyn Property, tier: Tier) -> i32 {
             }
             // The worker died. Find out on which case.
             let dead_index = std::fs::read(&cur).ok().and_then(|b| b.get(0..8).map(|s| u64::from_le_bytes(s.try_into().unwrap())));
-            let code = output.status.code();
+            let code = status.code();
             if code == Some(EXIT_WALL_LIMIT) {
                 inconclusive = Some(format!("wall-clock limit on case {dead_index:?} of worker {}", st.offset));
                 st.finished = true;
                 continue;
             }
-            let sig = if code == Some(EXIT_CPU_LIMIT) { "death:cpu-limit".to_owned() } else { death_signature(&output.status, &stderr) };
+            let sig = if code == Some(EXIT_CPU_LIMIT) { "death:cpu-limit".to_owned() } else { death_signature(&status, &stderr) };
             match dead_index {
                 Some(ix) => {
+                    total_deaths += 1;
                     deaths.push((ix, sig, stderr.chars().rev().take(600).collect::<String>().chars().rev().collect()));
                     if let Some(s) = summary {
                         st.start = s.next_index;
@@ -804,8 +825,12 @@ pub fn driver_main(prop: &'static dyn Property, tier: Tier) -> i32 {
                     }
                     st.skip.push(ix);
                     st.restarts += 1;
-                    if st.restarts > 12 {
+                    // Many deaths mean a systematic defect: the search behind it is pointless.
+                    if st.restarts > 3 || total_deaths > 8 {
                         st.finished = true;
+                    } else {
+                        let (c, cur, out, err) = spawn_worker(st);
+                        running.push((i, c, cur, out, err));
                     }
                 }
                 None => {
@@ -824,7 +849,19 @@ pub fn driver_main(prop: &'static dyn Property, tier: Tier) -> i32 {
     // 4. Attribute and shrink process deaths in fresh processes.
     let source = TapeSource::new(seed, prop.tape_len());
     let mut seen_death_sigs: BTreeSet<String> = BTreeSet::new();
+    let attribution_deadline = Instant::now() + std::time::Duration::from_secs(240);
+    let mut attributed: BTreeMap<String, u32> = BTreeMap::new();
     for (ix, worker_sig, stderr) in deaths {
+        // Re-running every death of a systematic hang would take hours: attribute the first few
+        // of each kind in isolation, count the others.
+        let n = attributed.entry(worker_sig.clone()).or_default();
+        *n += 1;
+        if *n > 3 || Instant::now() > attribution_deadline {
+            if let Some(e) = violations.iter_mut().find(|e| e.signature == worker_sig) {
+                e.occurrences += 1;
+            }
+            continue;
+        }
         let words = source.tape(ix);
         // Re-run alone: the signature of record comes from the isolated run.
         let (sig, labels, case) = match run_exec(id, tier, seed, ix, &words) {
@@ -847,12 +884,18 @@ pub fn driver_main(prop: &'static dyn Property, tier: Tier) -> i32 {
             }
             continue;
         }
+        let shrink_deadline = Instant::now() + std::time::Duration::from_secs(90);
         let shrunk = shrink(
             &words,
-            |cand| match run_exec(id, tier, seed, ix, cand) {
-                ExecVerdict::Died { signature, .. } => signature == sig,
-                ExecVerdict::Fail(r) => r.signature.as_deref() == Some(sig.as_str()),
-                ExecVerdict::Pass(_) => false,
+            |cand| {
+                if Instant::now() > shrink_deadline {
+                    return false;
+                }
+                match run_exec(id, tier, seed, ix, cand) {
+                    ExecVerdict::Died { signature, .. } => signature == sig,
+                    ExecVerdict::Fail(r) => r.signature.as_deref() == Some(sig.as_str()),
+                    ExecVerdict::Pass(_) => false,
+                }
             },
             250,
         );
